@@ -177,6 +177,30 @@ func (r *Run) Violate(driver, class string, c any, expected, got, note string) {
 		Case: raw, Expected: expected, Got: got, Note: note})
 }
 
+// Seen reports how many violations of class were reported so far (recorded
+// or not).  Drivers use it to skip expensive re-confirmation once a class is
+// established.
+func (r *Run) Seen(class string) int {
+	r.mu.Lock()
+	defer r.mu.Unlock()
+	return r.vioSeen[class]
+}
+
+// CountOnly bumps a class's violation counter without recording a case.
+func (r *Run) CountOnly(class string) {
+	r.mu.Lock()
+	r.vioSeen[class]++
+	r.mu.Unlock()
+}
+
+// Saturated reports that enough violations were recorded that exploring
+// further adds nothing: the run is going to exit 1 anyway.
+func (r *Run) Saturated() bool {
+	r.mu.Lock()
+	defer r.mu.Unlock()
+	return len(r.violations) >= 40
+}
+
 func (r *Run) ViolationCount() int {
 	r.mu.Lock()
 	defer r.mu.Unlock()
@@ -414,7 +438,7 @@ func ParallelRange[W any](r *Run, n int64, newWorker func(id int) W, fn func(w W
 				if lo >= n {
 					return
 				}
-				if r.Expired() {
+				if r.Expired() || r.Saturated() {
 					atomic.StoreInt32(&capped, 1)
 					return
 				}
@@ -430,6 +454,10 @@ func ParallelRange[W any](r *Run, n int64, newWorker func(id int) W, fn func(w W
 	}
 	wg.Wait()
 	if capped != 0 {
-		r.Cap(fmt.Sprintf("soft deadline reached in a range of %d (next unvisited index ≈ %d)", n, atomic.LoadInt64(&next)))
+		why := "soft deadline reached"
+		if r.Saturated() {
+			why = "stopped early after 40 recorded violations"
+		}
+		r.Cap(fmt.Sprintf("%s in a range of %d (next unvisited index ≈ %d)", why, n, atomic.LoadInt64(&next)))
 	}
 }
